@@ -567,23 +567,27 @@ func showE2E(a interface{}) string {
 // conc: every input is processed by its own lexer+parser, `workers` goroutines at a time;
 // the results must equal the sequential ones.
 func conc(inputs [][]byte, workers int) string {
-	seq := make([]string, len(inputs))
-	for i, in := range inputs {
-		seq[i] = e2e(in)
-	}
+	// the concurrent run comes FIRST: lazily initialised shared state would be warmed up by a sequential run
 	par := make([]string, len(inputs))
 	var wg sync.WaitGroup
 	sem := make(chan struct{}, workers)
+	start := make(chan struct{})
 	for i := range inputs {
 		wg.Add(1)
 		go func(i int) {
 			defer wg.Done()
+			<-start
 			sem <- struct{}{}
 			par[i] = e2e(inputs[i])
 			<-sem
 		}(i)
 	}
+	close(start)
 	wg.Wait()
+	seq := make([]string, len(inputs))
+	for i, in := range inputs {
+		seq[i] = e2e(in)
+	}
 	bad := 0
 	for i := range inputs {
 		if seq[i] != par[i] {
